@@ -169,6 +169,8 @@ def gen_item(rng, names=None, want_enum=None, allow_attrs=True, plain=False, abs
         c += ['(i8, bool)', f'{OPT}<i8>']
         if not copy:
             c += [STRING, f'{VEC}<i8>']
+            # a type recursive through `Self` (no parameter is mentioned by name: no bound must be drawn from it)
+            c += [f'::core::option::Option<::std::boxed::Box<Self>>', f'{VEC}<Self>']
         if has_T:
             c += [T, T, f'{OPT}<{T}>', f'({T}, i8)', f'::core::marker::PhantomData<{T}>', f'::core::option::Option<{T}>',
                   f'::core::option::Option<::core::option::Option<{T}>>']
@@ -213,7 +215,7 @@ def gen_item(rng, names=None, want_enum=None, allow_attrs=True, plain=False, abs
 
     def field_attrs(ty, pos, nf):
         """comparison / debug / default helper attributes that keep the item accepted and well-typed"""
-        if not allow_attrs or plain:
+        if not allow_attrs or plain or 'Self' in ty:
             return ''
         out = []
         generic = (has_T and (T in ty.replace('helpers::Tr', '') or (has_U and U in ty))) or (has_N and 'WN<' in ty)
